@@ -1357,7 +1357,13 @@ class Expr:
         # See legacy codegen: vyper/codegen/self_call.py (contains_self_call handling)
         arg_vals: list[VyperValue] = []
         for arg_node in all_arg_nodes:
-            arg_vals.append(Expr(arg_node, self.ctx).lower())
+            arg_val = Expr(arg_node, self.ctx).lower()
+            if arg_val.location is not None and arg_val.typ._is_prim_word:
+                # arguments are passed by value: load word-sized arguments
+                # now, so that side effects of later arguments (e.g. a call
+                # that writes the same state variable) cannot change them
+                arg_val = VyperValue.from_stack_op(self.ctx.unwrap(arg_val), arg_val.typ)
+            arg_vals.append(arg_val)
 
         # Now allocate staging buffers and copy evaluated values
         for i, arg_val in enumerate(arg_vals):
